@@ -190,10 +190,12 @@ Theorem C20_view_fastlog_no_panic : forall v l,
 Proof. exact view_fastlog_no_panic. Qed.
 Print Assumptions C20_view_fastlog_no_panic.
 
-(* the fifteen byte views cannot reach a non-fitting call: on ANY valid frame (of at most 70000 bytes),
-   from any index up to 1600, no call panics and the index stays inside the buffer -- thirteen have a text
-   of at most 400 bytes, ICMPEcho and IEEE1905 end in a ByteArray, which truncates itself *)
+(* nineteen of the twenty byte views cannot reach a non-fitting call: on ANY valid frame (of at most 70000
+   bytes), from any index up to 1600, no call panics and the index stays inside the buffer -- fifteen have a
+   text of at most 400 bytes, ICMPEcho, IEEE1905, RRCP and ICMP4Redirect end in an array over the rest of the
+   frame, which truncates itself *)
 Theorem C20_view_bytes_total : forall k p l,
+  total_kind k = true ->
   view_valid k p = true -> bytes_ok p -> frame_len_ok p -> wf l -> (index l <= 1600)%nat ->
   exists l', run_vops l (view_ops k p) = Ok l' /\ wf l' /\ (index l' <= BUFSZ)%nat.
 Proof. exact view_bytes_total. Qed.
@@ -201,10 +203,20 @@ Print Assumptions C20_view_bytes_total.
 
 (* hence String() = Logger.Msg("").Struct(p).ToString() of these views never panics *)
 Theorem C20_view_string_total : forall k p b0 m,
-  view_valid k p = true -> bytes_ok p -> frame_len_ok p -> List.length b0 = BUFSZ ->
+  total_kind k = true -> view_valid k p = true -> bytes_ok p -> frame_len_ok p -> List.length b0 = BUFSZ ->
   exists l0 l' t, msg_line b0 m [] = Ok l0 /\ run_vops l0 (view_ops k p) = Ok l' /\ to_string l' = Ok t.
 Proof. exact view_string_total. Qed.
 Print Assumptions C20_view_string_total.
+
+(* the exception is LLDP (total_kind KLLDP = false): its FastLog goes on after a ByteArray that had to be
+   truncated; a valid 1011-byte frame whose text does NOT fit makes String() panic.  The property only covers
+   views "whose text fits" (C20_view_fastlog_safe applies to LLDP with line_fits): documented, not a finding. *)
+Theorem C20_view_lldp_total_refuted :
+  view_valid KLLDP ex_lldp_big = true /\ bytes_ok ex_lldp_big /\ frame_len_ok ex_lldp_big /\
+  run_vops (mkLine (repeat 46 BUFSZ) 7) (view_ops KLLDP ex_lldp_big) = Panic /\
+  line_fits 7 (flatten (view_ops KLLDP ex_lldp_big)) = false.
+Proof. exact lldp_can_panic. Qed.
+Print Assumptions C20_view_lldp_total_refuted.
 
 Example C20_views_nonvacuous :
   view_ok (VBytes KIP4 ex_ip4) /\ frame_len_ok ex_ip4 /\ view_ok (VHost ex_host) /\
@@ -241,6 +253,12 @@ Theorem C20_spec_ip6_parse : forall g,
   List.length g = 8%nat -> Forall (fun w => w < 65536) g -> parse_ip6 (ip6_plain g) = g.
 Proof. exact ip6_plain_parse. Qed.
 Print Assumptions C20_spec_ip6_parse.
+
+(* netip's text of any 16-byte address, "::ffff:a.b.c.d" for the IPv4-mapped ones, reads back to its groups *)
+Theorem C20_spec_ip6_text_parse : forall b,
+  List.length b = 16%nat -> bytes_ok b -> parse_ip6_text (ip6_text b) = groups b.
+Proof. exact ip6_text_parse. Qed.
+Print Assumptions C20_spec_ip6_text_parse.
 
 (* ---- calls that do NOT fit (the property promises faithful lines only "whenever it fits") *)
 
